@@ -370,7 +370,15 @@ class Config:
         if dct is not None:
             kwargs.update(dct)
 
+        previous = {key: self.__dict__[key] for key in kwargs if key in self.__dict__}
+
         for key, val in kwargs.items():
             self._set(key, val)
 
-        self.check()
+        try:
+            self.check()
+        except ValueError:
+            # a rejected update must not stay in effect
+            for key, val in previous.items():
+                self._set(key, val)
+            raise
